@@ -279,3 +279,14 @@ pub proof fn lemma_seq_find_map<T, U>(s: Seq<T>, g: spec_fn(T) -> Option<U>)
         }
     }
 }
+
+impl<T> VIter<T> {
+    // Iterator::take: the first n items (all of them if there are fewer)
+    #[verifier::external_body]
+    pub fn take(self, n: usize) -> (r: VIter<T>) ensures r@ == self@.take(if (n as int) <= self@.len() { n as int } else { self@.len() as int }) { unimplemented!() }
+}
+impl<'a, T: Copy> VIter<&'a T> {
+    // Iterator::copied
+    #[verifier::external_body]
+    pub fn copied(self) -> (r: VIter<T>) ensures r@ == derefs::<T>(self@) { unimplemented!() }
+}
